@@ -71,6 +71,13 @@ enum TypeSel {
     None,
     SelectX,
     NegateX,
+    /// `-tx -Tq` (q names a type that matches nothing): a selection followed
+    /// by a negation — files of neither type stay excluded
+    SelectXNegateQ,
+    /// `-Tq -tx`
+    NegateQSelectX,
+    /// `-tx -Ty`
+    SelectXNegateY,
 }
 
 #[derive(Clone, Copy, Debug, PartialEq, Eq, PartialOrd, Ord, Hash)]
@@ -274,6 +281,13 @@ fn model_skipped(s: &Scn, e: &Eff, entry: &str, is_dir: bool, root_is_s: bool) -
                     return true;
                 }
             }
+            // at least one type is selected: only its files are searched,
+            // whatever is negated besides and in whatever order
+            TypeSel::SelectXNegateQ | TypeSel::NegateQSelectX | TypeSel::SelectXNegateY => {
+                if !is_x {
+                    return true;
+                }
+            }
         }
     }
     // 4. hidden
@@ -419,6 +433,15 @@ impl World {
             TypeSel::NegateX => {
                 cmd.args(["--type-add", "x:*.x", "-Tx"]);
             }
+            TypeSel::SelectXNegateQ => {
+                cmd.args(["--type-add", "x:*.x", "--type-add", "q:*.q", "-tx", "-Tq"]);
+            }
+            TypeSel::NegateQSelectX => {
+                cmd.args(["--type-add", "x:*.x", "--type-add", "q:*.q", "-Tq", "-tx"]);
+            }
+            TypeSel::SelectXNegateY => {
+                cmd.args(["--type-add", "x:*.x", "--type-add", "y:*.y", "-tx", "-Ty"]);
+            }
         }
         if let Some(d) = s.max_depth {
             cmd.arg("--max-depth").arg(d.to_string());
@@ -552,6 +575,9 @@ fn anchored_layer(rg: &Path, tier: Tier) -> AnchoredResult {
         vec!["/R/t.x"], vec!["/R/S/t.x"], vec!["/R/S/U/t.x"], vec!["R/S/t.x"], vec!["R/S/U/t.x"], vec!["/R/S/"], vec!["/R/S"], vec!["/R/S/U/"],
         vec!["/Q/t.x"], vec!["/Q/S/t.x"], vec!["/Q/"], vec!["/t.x"], vec!["S/t.x"], vec!["/R/k.x"], vec!["/S/t.x"],
         vec!["t.x", "!/R/S/t.x"], vec!["t.x", "!/Q/S/t.x"], vec!["t.x", "!/R/t.x", "/R/S/U/t.x"], vec!["/R/S/t.x", "/Q/t.x"],
+        // a directory-only rule that names a FILE has no say about it: the
+        // earlier rule of the same source stands
+        vec!["t.x", "t.x/"], vec!["/R/S/t.x", "!t.x/"], vec!["t.x", "!t.x/", "/R/k.x/"],
         // hidden names (these rule sets are also run with --hidden)
         vec![".h.x"], vec!["/R/S/.h.x"], vec!["/R/.d/t.x", ".f."],
     ];
@@ -913,7 +939,7 @@ pub fn run(args: &Args) -> ! {
                 }
             }
             // (c) types, depth, roots
-            for types in [TypeSel::SelectX, TypeSel::NegateX] {
+            for types in [TypeSel::SelectX, TypeSel::NegateX, TypeSel::SelectXNegateQ, TypeSel::NegateQSelectX, TypeSel::SelectXNegateY] {
                 let mut s = base(vec![*a], git);
                 s.types = types;
                 scns.push(s);
@@ -997,7 +1023,7 @@ pub fn run(args: &Args) -> ! {
     ev.set("scenarios", n);
     ev.set(
         "rule",
-        "tree P/R/S (P above the search root, R the root, S a subdirectory) with probe entries t.x (file), .h (hidden file), d/ (directory with a file) and controls in R and S; .git in {nowhere, P, R}. Rule = (source in {-g, .rgignore, .ignore, .gitignore, .git/info/exclude, global git ignore, --ignore-file}, placement in {P,R,S} where meaningful, ignore | whitelist, probe). Scenarios: every single rule and every conflicting pair on the same probe (thorough: half of all triples on the file probe) x repository placement, with and without --no-require-git; every single rule x each of --hidden --no-ignore --no-ignore-vcs/-dot/-exclude/-global/-parent/-files --no-require-git -u -uu -uuu alone and in pairs; -t / -T with --type-add; --max-depth 0..2; roots '.', relative, absolute, a subdirectory (so that R and P are parents), an explicit file plus a directory. Observation: `rg --files --sort path`. Oracle: a reference model of the documented precedence (overrides; .rgignore > .ignore > .gitignore > .git/info/exclude > global > --ignore-file, nearest directory first, git sources gated by the repository and --no-require-git, parents by --no-ignore-parent; then types; then hidden unless whitelisted; explicit paths always). Layer 2 (rules containing a slash, hidden names): 22 rule sets in P/.ignore, P/.gitignore or a file given with --ignore-file (rules relative to the current directory P), anchored at P (/R/t.x, /R/S/t.x, /R/S/U/t.x, R/S/t.x, directory forms, rules for a second tree Q, blanket t.x with an anchored re-include, rules for hidden names .h.x / a hidden directory, run with and without --hidden; hidden entries incl. a name ending in a dot must be skipped without --hidden) x 15 ways of naming the roots (R, ./R, R/, absolute, R Q, Q R, R/S Q, from inside R and R/S, . ../Q ...) and 6 -g glob sets with a slash x 6 root spellings, each listed with --sort path, -j1 and -j2 — the latter under the replay scheduler, every schedule with at most one preemption (budget 60 per case) when there are several roots; reference: a rule with a slash matches exactly its path below the directory of its ignore file (below the current directory for -g), whatever the roots, their order, the depth of the entry and the schedule. distinct_nontrivial = scenarios in which the model filters at least one file.",
+        "tree P/R/S (P above the search root, R the root, S a subdirectory) with probe entries t.x (file), .h (hidden file), d/ (directory with a file) and controls in R and S; .git in {nowhere, P, R}. Rule = (source in {-g, .rgignore, .ignore, .gitignore, .git/info/exclude, global git ignore, --ignore-file}, placement in {P,R,S} where meaningful, ignore | whitelist, probe). Scenarios: every single rule and every conflicting pair on the same probe (thorough: half of all triples on the file probe) x repository placement, with and without --no-require-git; every single rule x each of --hidden --no-ignore --no-ignore-vcs/-dot/-exclude/-global/-parent/-files --no-require-git -u -uu -uuu alone and in pairs; -t / -T with --type-add, alone and mixed in both orders (a selection plus a negation: files of neither type stay excluded); --max-depth 0..2; roots '.', relative, absolute, a subdirectory (so that R and P are parents), an explicit file plus a directory. Observation: `rg --files --sort path`. Oracle: a reference model of the documented precedence (overrides; .rgignore > .ignore > .gitignore > .git/info/exclude > global > --ignore-file, nearest directory first, git sources gated by the repository and --no-require-git, parents by --no-ignore-parent; then types; then hidden unless whitelisted; explicit paths always). Layer 2 (rules containing a slash, hidden names): 22 rule sets in P/.ignore, P/.gitignore or a file given with --ignore-file (rules relative to the current directory P), anchored at P (/R/t.x, /R/S/t.x, /R/S/U/t.x, R/S/t.x, directory forms, rules for a second tree Q, blanket t.x with an anchored re-include, rules for hidden names .h.x / a hidden directory, run with and without --hidden; hidden entries incl. a name ending in a dot must be skipped without --hidden) x 15 ways of naming the roots (R, ./R, R/, absolute, R Q, Q R, R/S Q, from inside R and R/S, . ../Q ...) and 6 -g glob sets with a slash x 6 root spellings, each listed with --sort path, -j1 and -j2 — the latter under the replay scheduler, every schedule with at most one preemption (budget 60 per case) when there are several roots; reference: a rule with a slash matches exactly its path below the directory of its ignore file (below the current directory for -g), whatever the roots, their order, the depth of the entry and the schedule. distinct_nontrivial = scenarios in which the model filters at least one file.",
     );
     ev.set("samples", json!([{"rules": "[.ignore@R !t.x, .gitignore@S t.x]", "git": "R", "flags": ["--no-ignore-dot"]}]));
     ev.assume("patterns are plain names or literal paths; glob semantics are C04/C12's subject");
